@@ -214,3 +214,117 @@ def prove_cvx(replay, tag, tier):
     }
     functions = [src_of(v[0]).info(v[1]) for v in cvx_specs(1).values()] + [src_of("toqito/nonlocal_games/quantum_hedging.py").info("QuantumHedging.__init__")]
     return dict(records=records, functions=functions, instances=len(reach), planted=planted, selfchecks=sc, axioms=AXIOM_TEXT)
+
+
+METRIC_MUTS = [
+    ("cbtn.sdp", "return sdp.value / 2", "return sdp.value"),
+    ("cf.sdp", "partial_trace(q_var, [1], [dim, dim])", "partial_trace(q_var, [0], [dim, dim])"),
+    ("cbtn.sdp", "[-phi.conj().T, y1]", "[-phi.T, y1]"),
+    ("cbtn.sdp", "pc.SpectralNorm(y1.partial_trace(1, dimensions=dim))", "pc.SpectralNorm(y0.partial_trace(1, dimensions=dim))"),
+    ("cf.sdp", "cvxpy.bmat([[choi_1, q_var.H], [q_var, choi_2]])", "cvxpy.bmat([[choi_1, q_var], [q_var.H, choi_2]])"),
+    ("cf.sdp", "problem.solve(solver=cvxpy.SCS, eps=eps)", "problem.solve(solver=cvxpy.SCS)"),
+]
+
+
+def prove_metrics(replay, tag, tier):
+    """the SDP branch of completely_bounded_trace_norm and channel_fidelity: stated program, all dimensions"""
+    from contracts.sdp_c import SdpContract, metric_specs
+    from vt import extract
+    from vt.pyvc.progvc import AXIOM_TEXT, ProgEngine
+
+    S = metric_specs()
+    srcs = {k: extract.Source(v[0]) for k, v in S.items()}
+
+    def run(key, override=None):
+        rel, fn, params, req, spec, text = S[key]
+        s = override if override is not None else srcs[key]
+        e = ProgEngine(s.function(fn), SdpContract(params, req, spec, text), fn, "%s, all dimensions" % key, timeout_ms=4000 if override is None else 1200)
+        return e.run()
+
+    records = []
+    for key in S:
+        records += run(key)
+    for i, x in enumerate(records):
+        x["_id"] = "%s.%d" % (tag, i)
+        x["clean"] = False
+        if x["status"] != "discharged":
+            pre = "cbtn" if "bounded" in x["function"] else "cf"
+            x["replay"] = [c for c in replay if c.get("clause", "").startswith(pre)][:60]
+    planted = {"tried": 0, "refuted": 0, "survivors": [], "anchors_missing": [], "detail": []}
+    for key, old, new in (METRIC_MUTS if tier == "thorough" else METRIC_MUTS[:2]):
+        try:
+            m = srcs[key].mutated(old, new)
+        except KeyError:
+            planted["anchors_missing"].append("%s: %s" % (key, old[:40]))
+            continue
+        bad = [x for x in run(key, override=m) if x["status"] != "discharged"]
+        planted["tried"] += 1
+        if bad:
+            planted["refuted"] += 1
+            planted["detail"].append({"mutant": "%s: %s -> %s" % (key, old[:50], new[:50]), "not_discharged": len(bad), "first": "%s [%s]" % (bad[0]["text"][:90], bad[0]["status"])})
+        else:
+            planted["survivors"].append("%s: %s" % (key, old[:50]))
+    claims = sum(1 for x in records if x.get("claim"))
+    reach = [x for x in records if x["kind"] == "reachability"]
+    sc = {
+        "nonzero_claim_obligations": {"ok": claims > 0, "detail": {"metric programs": claims}},
+        "preconditions_satisfiable": {"ok": bool(reach) and all(x["status"] == "discharged" for x in reach), "detail": {"instances": len(reach)}},
+        "planted_bugs_all_refuted": {"ok": planted["tried"] == planted["refuted"] and not planted["anchors_missing"], "detail": planted},
+    }
+    return dict(records=records, functions=[srcs[k].info(S[k][1]) for k in S], instances=len(reach), planted=planted, selfchecks=sc, axioms=AXIOM_TEXT)
+
+
+XOR_MUTS = [
+    ("np.real(problem.value) / 4 + 1 / 2\n", "np.real(problem.value) / 2 + 1 / 2\n", (2, 2, 1)),
+    ("np.negative(d_mat.conj().T)", "np.negative(d_mat)", (2, 2, 1)),
+    ("[cvxpy.diag(u_vec), -d_mat]", "[cvxpy.diag(u_vec), d_mat]", (2, 3, 1)),
+    ("** self.reps", "** (self.reps - 1)", (2, 2, 2)),
+]
+
+
+def prove_xor(replay, tag, tier):
+    """XORGame.quantum_value hands cvxpy the dual Tsirelson program and returns (1/2 + opt/4)^reps; question counts enumerated"""
+    from contracts.sdp_c import SdpContract, xor_specs
+    from vt import extract
+    from vt.pyvc.progvc import AXIOM_TEXT, ProgEngine
+
+    src = extract.Source("toqito/nonlocal_games/xor_game.py")
+    insts = [(2, 2, 1), (2, 3, 1), (3, 2, 1), (3, 3, 1), (2, 2, 2), (3, 2, 2)] + ([(1, 1, 1), (1, 3, 1), (4, 2, 1), (4, 4, 1), (3, 3, 2)] if tier == "thorough" else [])
+
+    def run(inst, override=None):
+        X, Y, reps = inst
+        rel, fn, params, req, spec, text = xor_specs(X, Y, reps)["xor.quantum_value"]
+        s = override if override is not None else src
+        e = ProgEngine(s.function(fn), SdpContract(params, req, spec, text), "XORGame.quantum_value", "%d x %d questions, reps = %d, all distributions and predicates" % inst, timeout_ms=4000 if override is None else 1200)
+        return e.run()
+
+    records = []
+    for inst in insts:
+        records += run(inst)
+    for i, x in enumerate(records):
+        x["_id"] = "%s.%d" % (tag, i)
+        x["clean"] = False
+        if x["status"] != "discharged":
+            x["replay"] = list(replay)[:60]
+    planted = {"tried": 0, "refuted": 0, "survivors": [], "anchors_missing": [], "detail": []}
+    for old, new, inst in (XOR_MUTS if tier == "thorough" else XOR_MUTS[:2]):
+        try:
+            m = src.mutated(old, new)
+        except KeyError:
+            planted["anchors_missing"].append("XORGame.quantum_value: %s" % old[:40])
+            continue
+        bad = [x for x in run(inst, override=m) if x["status"] != "discharged"]
+        planted["tried"] += 1
+        if bad:
+            planted["refuted"] += 1
+            planted["detail"].append({"mutant": "XORGame.quantum_value: %s -> %s" % (old[:50].strip(), new[:50].strip()), "not_discharged": len(bad), "first": "%s [%s]" % (bad[0]["text"][:90], bad[0]["status"])})
+        else:
+            planted["survivors"].append("XORGame.quantum_value: %s" % old[:50])
+    claims = sum(1 for x in records if x.get("claim"))
+    reach = [x for x in records if x["kind"] == "reachability"]
+    sc = {
+        "nonzero_claim_obligations": {"ok": claims > 0, "detail": {"XORGame.quantum_value": claims}},
+        "preconditions_satisfiable": {"ok": bool(reach) and all(x["status"] == "discharged" for x in reach), "detail": {"instances": len(reach)}},
+        "planted_bugs_all_refuted": {"ok": planted["tried"] == planted["refuted"] and not planted["anchors_missing"], "detail": planted},
+    }
+    return dict(records=records, functions=[src.info("XORGame.quantum_value")], instances=len(reach), planted=planted, selfchecks=sc, axioms=AXIOM_TEXT)
